@@ -630,7 +630,7 @@ func init() {
 		Assumptions: []string{"'changed' is decided by the mutator on the launch-relevant fields of the statement, independent of ProcessConfig.Compare", "description-only changes are not generated (the statement is silent)"},
 		Gen: func(seed int64, tier string) []fw.Case {
 			var cs []fw.Case
-			for i := 0; i < tierN(tier, 600, 10000); i++ {
+			for i := 0; i < tierN(tier, 5000, 60000); i++ {
 				s := fw.SubSeed(seed, i)
 				cs = append(cs, fw.MkCase("C14", "update-chain", s, genUpSpec(fw.Rand(s), i)))
 			}
